@@ -196,6 +196,16 @@ func deref(cur any) (any, string, bool) {
 				return nil, rNilPointer, thru
 			}
 			cur = *p
+		case *ERoot:
+			if p == nil {
+				return nil, rNilPointer, thru
+			}
+			cur = *p
+		case *RootBase:
+			if p == nil {
+				return nil, rNilPointer, thru
+			}
+			cur = *p
 		case *map[any]string:
 			if p == nil {
 				return nil, rNilPointer, thru
@@ -250,6 +260,9 @@ func index(cur any, st Step) (any, string, string) {
 		return v, o, kind
 	}
 	if v, o, kind, isAnyMap := indexAnyMap(cur, st, pfx); isAnyMap {
+		return v, o, kind
+	}
+	if v, o, kind, isEmb := indexEmbed(cur, st.K, pfx); isEmb {
 		return v, o, kind
 	}
 	for _, rk := range rowKinds {
@@ -439,9 +452,9 @@ func nodeField(n Node, k string) (any, string, string) {
 		}
 		return n.PDeep, reach, ".promoted"
 	case "num":
-		// JSON tag of a field promoted from an embedded struct: encoding/json would flatten it,
-		// Go selectors know only the name. Not settled by the statement.
-		return nil, unspec, ".promoted-tag"
+		// JSON tag of a field promoted from the embedded Leaf: it is a field of n (n.Num) and
+		// "num" is its JSON tag.
+		return n.Num, reach, ".promoted-tag"
 	case "Short":
 		return n.Short, reach, ".name"
 	case "id":
@@ -530,6 +543,29 @@ func walk(v any, steps []Step) (any, string, []string) {
 // are resolved by internal/reflect.ResolveValue, which rejects an empty step).
 func validStepsFor(cur any, avoid func(id string) bool) []string {
 	steps := validSteps(cur)
+	// region of kfPromotedTag: the JSON tag of a promoted field
+	if d, out, _ := deref(cur); out == reach {
+		var tags []string
+		switch d.(type) {
+		case Node:
+			tags = []string{"num"}
+		case ERoot:
+			tags = eRootPromotedTags
+		}
+		if len(tags) > 0 && avoid != nil && avoid(kfPromotedTag) {
+			var kept []string
+			for _, k := range steps {
+				drop := false
+				for _, t := range tags {
+					drop = drop || k == t
+				}
+				if !drop {
+					kept = append(kept, k)
+				}
+			}
+			return kept
+		}
+	}
 	switch cur.(type) {
 	case map[string]any, map[string]string:
 		return steps
@@ -555,6 +591,14 @@ func validSteps(cur any) []string {
 	}
 	if keys, ok := anyMapKeys(cur); ok {
 		return keys
+	}
+	if d, out, _ := deref(cur); out == reach {
+		switch d.(type) {
+		case ERoot:
+			return eRootNames
+		case RootBase:
+			return rootBaseNames
+		}
 	}
 	cur, out, _ := deref(cur)
 	if out != reach {
@@ -600,7 +644,7 @@ func validSteps(cur any) []string {
 	case [3]int:
 		return idx(3)
 	case Node:
-		o := []string{"Name", "Title", "title", "Count", "count", "Any", "any", "Kids", "Next", "next", "Arr", "Tags", "tags", "M", "Small", "small", "Bytes", "Short", "id", "Long", "ID", "Leaf", "Deep", "Num", "PLeaf"}
+		o := []string{"Name", "Title", "title", "Count", "count", "Any", "any", "Kids", "Next", "next", "Arr", "Tags", "tags", "M", "Small", "small", "Bytes", "Short", "id", "Long", "ID", "Leaf", "Deep", "Num", "num", "PLeaf"}
 		if c.PLeaf != nil {
 			o = append(o, "PDeep")
 		}
@@ -669,6 +713,12 @@ func invalidSteps(cur any, avoid func(id string) bool) []string {
 	}
 	if _, ok := anyMapKeys(cur); ok {
 		return []string{"zz", "nope", "7"}
+	}
+	if d, out, _ := deref(cur); out == reach {
+		switch d.(type) {
+		case ERoot, RootBase:
+			return []string{"pname", "CODE", "Nope", "0", "Rootbase"}
+		}
 	}
 	if n, ok := seqLen(cur); ok {
 		return []string{strconv.Itoa(n), strconv.Itoa(n + 3), "-1", "-2", "x", "99999999999999999999"}
